@@ -9,8 +9,7 @@
   accepts does fit, so `C11_accepted_reencodes` states the property for arbitrary accepted octet
   strings: junk after NULs, inconsistent but parseable counts, duplicate optional tags, extreme
   values, maximum-length optional values are all just octet strings here.  Not covered by the
-  theorem (explored on the implementation): sgip12.Submit, whose encoder rewrites a count field
-  that a list item reads, and the two SMGP types of the open finding.
+  theorem (explored on the implementation): the two SMGP types of the open finding.
 -/
 import SmsVerif.Props.C01
 import SmsVerif.Lemmas.DecodedFits
@@ -73,10 +72,8 @@ theorem C11_same_fields_same_bytes (its : List Item) (a b : Rec)
 
 /-! ### arbitrary accepted octet strings -/
 
-/-- PDU types outside `C11_accepted_reencodes`: the open SMGP finding, and sgip12.Submit (its
-    `UserCount` fix-up is read by the list item; for a decoded PDU the fix-up is the identity, which
-    is not yet proved in general) -/
-def notCovered : List String := exceptions ++ ["sgip12.Submit"]
+/-- PDU types outside `C11_accepted_reencodes`: the two SMGP types of the open finding -/
+def notCovered : List String := exceptions
 
 /-- per-run obligation: the static check of `decode_fits` accepts every other regenerated layout -/
 theorem layouts_decoded_fit :
@@ -94,11 +91,9 @@ theorem C11_accepted_reencodes (p : PduDesc) (hp : p ∈ Gen.allPdus) (hx : notC
         ∃ bs r2, (∃ r', p.encode r = .ok (bs, r')) ∧ p.decode bs = .ok r2 ∧
           ∀ ft ∈ p.fields, ft.1 ∉ allTargets its → ¬ (p.fin = .withLength ∧ ft.1 = lf) →
             r2.get? ft.1 = r.get? ft.1) := by
-  have hx1 : exceptions.contains p.name = false := by
-    simp only [notCovered, List.contains_iff_mem, List.mem_append, Bool.eq_false_iff, ne_eq] at hx ⊢
-    intro h; exact hx (by simp [h])
+  have hx1 : exceptions.contains p.name = false := hx
   have hchk := List.all_eq_true.1 layouts_decoded_fit p (List.mem_filter.2 ⟨hp, by rw [hx]; rfl⟩)
-  obtain ⟨lf, its, hits, hfit⟩ := decode_fits p hchk data hoct r hdec
+  obtain ⟨lf, its, hits, hfit, _⟩ := decode_fits p hchk data hoct r hdec
   obtain ⟨lf', its', hits', hst⟩ := C11_stable_partial p hp hx1
   rw [hits] at hits'
   simp only [Option.some.injEq, Prod.mk.injEq] at hits'
